@@ -161,8 +161,11 @@ def dsend_scenario(ctx):
     class FakeServer:
         addr = FakeAddr()
     sd = sdf.SynthDef._dummy('x')
-    sd._bytes = b'\x01' * nn
-    sd.as_bytes = lambda: sd._bytes
+    # what the real as_bytes() hands out: the buffer view of the written stream (a memoryview, not bytes)
+    import io as _io
+    _st = _io.BytesIO()
+    _st.write(b'\x01' * nn)
+    sd._bytes = _st.getbuffer()
     try:
         sd._do_send(FakeServer(), comp)
     except Exception as e:
